@@ -431,6 +431,72 @@ def r15g(ctx: Context) -> None:
         raise AnalysisError("no write-back of the user's file found in the fix path (anchor moved)")
 
 
+def refused_write_back_is_an_error(ctx: Context, rule_id: str = "R15n") -> None:
+    """'Fixed:' and the fixed result mean that the bytes changed.  If the operating system refuses the
+    write-back (copy / rename raises), nothing on the way back to the per-file function may swallow the
+    exception: every handler that can catch it between the sink and the per-file function ends in a raise."""
+    prog = ctx.prog
+    rule = ctx.rule(rule_id, "an exception of the write-back is never swallowed on the way to the per-file function", 1)
+    tainted = user_file_params(prog)
+    sink_funcs: List[FuncInfo] = []
+    for qual, params in sorted(tainted.items()):
+        func = prog.functions[qual]
+        for site in prog.sites_in(func):
+            if (site.external or "") in WRITE_SINKS and len(site.node.args) >= 2 and isinstance(site.node.args[1], ast.Name) and site.node.args[1].id in params:
+                if func not in sink_funcs:
+                    sink_funcs.append(func)
+    if not sink_funcs:
+        raise AnalysisError("no write-back of the user's file found in the fix path (anchor moved)")
+    per_file = set(per_file_functions(prog))
+    catches = {"Exception", "BaseException", "OSError", "IOError", "PermissionError", "EnvironmentError"}
+
+    def enclosing_handlers(func: FuncInfo, node: ast.AST) -> List[ast.ExceptHandler]:
+        found: List[ast.ExceptHandler] = []
+        for candidate in walk_local(func.node):
+            if isinstance(candidate, ast.Try) and any(sub is node for stmt in candidate.body for sub in ast.walk(stmt)):
+                for handler in candidate.handlers:
+                    names = set()
+                    if handler.type is None:
+                        names.add("BaseException")
+                    else:
+                        for sub in ast.walk(handler.type):
+                            if isinstance(sub, (ast.Name, ast.Attribute)):
+                                names.add((dotted(sub) or "").split(".")[-1])
+                    if names & catches:
+                        found.append(handler)
+        return found
+
+    checked: Set[str] = set()
+    work: List[Tuple[FuncInfo, ast.AST]] = []
+    for func in sink_funcs:
+        for site in prog.sites_in(func):
+            if (site.external or "") in WRITE_SINKS or (site.external or "").startswith("shutil."):
+                work.append((func, site.node))
+    seen_funcs: Set[str] = set()
+    while work:
+        func, node = work.pop()
+        for handler in enclosing_handlers(func, node):
+            key = func_key(func, handler) + " [write-back exception]"
+            if key in checked:
+                continue
+            checked.add(key)
+            if func in per_file:
+                rule.ok(key, "the per-file function reports the error and returns the failure status (R15l)")
+                continue
+            always, why = handler_always_raises(handler, {"*reraise", "Exception", "OSError", "BadPluginError", "BadTokenizationError", "BadPluginFixError"})
+            if always:
+                rule.ok(key, "cleans up and re-raises")
+            else:
+                rule.fail(key, where(func, handler), f"{func.short} catches an exception of the write-back and {why}: the file is unchanged on disk, yet the run goes on to announce it as fixed")
+        if func.qualname in seen_funcs or func in per_file:
+            continue
+        seen_funcs.add(func.qualname)
+        for site in prog.callers.get(func.qualname, []):
+            work.append((site.caller, site.node))
+    if not checked:
+        rule.ok(f"{sink_funcs[0].short}: no handler", "nothing between the sink and the per-file function catches its exceptions")
+
+
 def reported_means_failed(ctx: Context, rule_id: str = "R15l") -> None:
     """A per-file function that reports an error for the file returns the failure status on that path."""
     from sa.util import enumerate_paths, PathBudgetExceeded
@@ -528,6 +594,12 @@ def run(ctx: Context) -> None:
     c18.r18c(ctx)
     _relabel(ctx, "R15k")
     reported_means_failed(ctx)
+    refused_write_back_is_an_error(ctx)
+    from sa.rules import c10
+
+    # the per-run 'a file failed' flag accumulates: a later clean file cannot clear it
+    c10.r10c(ctx)
+    _relabel(ctx, "R15m")
     if ctx.tier == "thorough":
         from sa.rules import driver_exploration
 
